@@ -1060,6 +1060,20 @@ class Printer:
         return t + self.e(n) + ';\n'
 
     # ------------------------------------------------------------------ abstracting rendering (guard/frame units only)
+    def is_value_local(self, rd):
+        """a local variable that holds its data itself: not a pointer, reference, smart pointer or iterator into the model"""
+        if not rd or rd.get('kind') not in ('VarDecl', 'ParmVarDecl') or rd.get('id') not in self.local_ids:
+            return False
+        q = (rd.get('type') or {}).get('qualType', '')
+        d = (rd.get('type') or {}).get('desugaredQualType', '') or ''
+        for tt in (q, d):
+            ts = tt.strip()
+            if ts.endswith('*') or ts.endswith('&') or '_ptr<' in ts or 'iterator' in ts or 'reference_wrapper' in ts or ts in ('auto', ''):
+                if ts in ('auto', '') and tt is d:
+                    continue
+                return False
+        return True
+
     def root_object(self, n):
         """the variable an expression statement operates on (call object / assignment target), or None"""
         n = self.skip(n)
@@ -1111,7 +1125,15 @@ class Printer:
         if k == 'CompoundStmt':
             return t + '{\n' + ''.join(self.st_abs(c, ind + 1) for c in I) + t + '}\n'
         if k == 'IfStmt':
-            r = t + 'if (%s)\n' % cond(I[0]) + t + '{\n' + self.st_abs(I[1], ind + 1) + t + '}\n'
+            pre = ''
+            if n.get('hasInit') or n.get('hasVar'):
+                # if (init; cond) / if (auto x = ...): the leading declaration(s) come first in the child list
+                nskip = (1 if n.get('hasInit') else 0) + (1 if n.get('hasVar') else 0)
+                for dcl in I[:nskip]:
+                    pre += self.st_abs(dcl, ind)
+                I = I[nskip:]
+                self.fire('abs:if-with-declaration')
+            r = pre + t + 'if (%s)\n' % cond(I[0]) + t + '{\n' + self.st_abs(I[1], ind + 1) + t + '}\n'
             if len(I) > 2:
                 r += t + 'else\n' + t + '{\n' + self.st_abs(I[2], ind + 1) + t + '}\n'
             return r
@@ -1130,7 +1152,7 @@ class Printer:
                     if nm in allow or nm in ('move', 'forward', 'max', 'min'):
                         continue
                     ro_ = self.root_object(c)
-                    if ro_ and ro_.get('kind') in ('VarDecl', 'ParmVarDecl') and ro_.get('id') in self.local_ids:
+                    if self.is_value_local(ro_):
                         continue
                     out.append(nm)
             return out
@@ -1166,7 +1188,7 @@ class Printer:
         if k in ('BreakStmt', 'ContinueStmt', 'NullStmt'):
             return t + ';\n'
         ro = self.root_object(n)
-        if ro and ro.get('kind') in ('VarDecl', 'ParmVarDecl') and ro.get('id') in self.local_ids and not risky_calls(n):
+        if self.is_value_local(ro) and not risky_calls(n):
             self.fire('abs:local-only-statement')
             return t + '/* operates on a local variable */;\n'
         nn = self.skip(n)
@@ -1328,7 +1350,13 @@ class Printer:
         if k == 'CompoundStmt':
             return t + '{\n' + ''.join(self.st_sz(c, ind + 1) for c in I) + t + '}\n'
         if k == 'IfStmt':
-            r = t + 'if (%s)\n' % cond(I[0]) + t + '{\n' + self.st_sz(I[1], ind + 1) + t + '}\n'
+            pre = ''
+            if n.get('hasInit') or n.get('hasVar'):
+                nskip = (1 if n.get('hasInit') else 0) + (1 if n.get('hasVar') else 0)
+                for dcl in I[:nskip]:
+                    pre += self.st_sz(dcl, ind)
+                I = I[nskip:]
+            r = pre + t + 'if (%s)\n' % cond(I[0]) + t + '{\n' + self.st_sz(I[1], ind + 1) + t + '}\n'
             if len(I) > 2:
                 r += t + 'else\n' + t + '{\n' + self.st_sz(I[2], ind + 1) + t + '}\n'
             return r
